@@ -107,6 +107,8 @@ def decPayload (s : String) : Option (Option Value) :=
   | ['M'] => some (some (.map []))
   | ['Q', 'i'] => some (some (.seq [.int 1]))
   | ['Q', 'r'] => some (some (.seq [.str (c!"info"), .seq []]))
+  | ['Q', 'e'] => some (some (.seq []))
+  | ['Q', 'f'] => some (some (.seq [.map [(c!"kind", .str (c!"threshold")), (c!"level", .str (c!"info"))]]))
   | 'I' :: r => (decInt (String.ofList r)).map (fun n => some (.int n))
   | 'S' :: r => (decStr (String.ofList r)).map (fun s => some (.str s))
   | _ => none
